@@ -31,6 +31,16 @@ CLAIMED['C20'] = (
     'constructor and call sites not under contract.',
     'contract-based deductive verification (AST->VC generator, z3 + cvc5), native replay of counter-models')
 
+CLAIMED['C13'] = (
+    'DESIGN.md 4 C13',
+    'Deductive proof that get_http_range agrees with an RFC 7233 spec function for every header shape and all integers: '
+    'ValueError (400) iff the header is present and not a single byte-range-spec, 206 with exactly [first, min(last, N-1)] / '
+    'suffix clamp and matching Content-Range iff satisfiable, 416 with bytes */N otherwise, no other exception; plus the '
+    'consumer slicing lemma.',
+    'Trusted: pyvc encoding; opaque-string model of the header (predicates the code observes; int() of a split("-") part is '
+    'non-negative). Handler bodies that consume the tuple are covered by a lemma over the contract only.',
+    'contract-based deductive verification (AST->VC generator, z3 + cvc5), native replay by source extraction')
+
 NOT_APPLICABLE = {
     'C05': 'XML documents come out of Jinja templates rendered by an external engine; no function contract reaches them and the app cannot be instantiated offline (flask_login missing).',
     'C07': 'Identity of string transducers (quote_plus, regex date parsing, split) over a registry built with getattr; SMT string solvers leave these undecided; a proof over only int/bool options would not decide the property.',
